@@ -650,3 +650,7 @@ _add(
     "C33",
     m("limit-uses-unbuilt-jobs", "redun/backends/db/query.py", "            jobs=built._jobs.limit(size),", "            jobs=self._jobs.limit(size),", "C33.6"),
 )
+_add(
+    "C10",
+    m("k8s-array-published-empty", "redun/executors/k8s.py", "        self.pending_k8s_jobs[array_job_name] = {i: jobs[i] for i in range(array_size)}\n", "        self.pending_k8s_jobs[array_job_name] = {}\n        for i in range(array_size):\n            cast(\"dict[int, Job]\", self.pending_k8s_jobs[array_job_name])[i] = jobs[i]\n", "C10.10"),
+)
